@@ -633,6 +633,9 @@ def coq_term(case, out):
                                                 cbytes(case['ctype']), cobs(out, ok))]
         if 'raw' in out:
             ts.append(wf_term(case['ptype'], out['raw']))
+        if out.get('first', {}).get('state') == 6:
+            # domain of C15_update_body_rebuild_*: the parsed message is re-serialisable
+            ts.append('BRebuildDom %s %s' % (pt(case['ptype']), cbytes(case['raw'])))
         return ts
     if k == 'dechunk':
         r = out['ref']
